@@ -71,13 +71,19 @@ def c_ir(n: Dict[str, Any], src_of: Optional[Callable[[Dict[str, Any]], str]] = 
     if k == 'DeclRefExpr':
         return ('sym', n['referencedDecl']['name'])
     if k == 'MemberExpr':
-        return ('attr', c_ir(n['inner'][0], src_of), n['name'])
+        base = c_ir(n['inner'][0], src_of)
+        if n.get('isArrow') and base[0] == 'un' and base[1] == 'addr':
+            base = base[2]                       # (&x)->f is x.f
+        return ('attr', base, n['name'])
     if k == 'ArraySubscriptExpr':
         return ('idx', c_ir(n['inner'][0], src_of), c_ir(n['inner'][1], src_of))
     if k == 'UnaryOperator':
         op = n.get('opcode')
         if op == '*':
-            return ('idx', c_ir(n['inner'][0], src_of), ('num', 0))
+            inner_ = c_ir(n['inner'][0], src_of)
+            if inner_[0] == 'un' and inner_[1] == 'addr':
+                return inner_[2]                 # *&x is x
+            return ('idx', inner_, ('num', 0))
         if op == '&':
             return ('un', 'addr', c_ir(n['inner'][0], src_of))
         if op in ('++', '--'):
